@@ -146,6 +146,11 @@ def run_case(case):
                 for _ in range(6):
                     calls.append(("ac", ai, "set_quick_timer_time",
                                   (ty, rnd.randint(0, 23), rnd.randint(0, 59))))
+                # asking for exactly what the console last reported is still a request
+                rep = inst["timers"][inst["acs"][ai]["ability"]["ac"]]["on" if ty == "ON_TIMER"
+                                                                         else "off"]
+                calls.append(("ac", ai, "set_quick_timer_time", (ty, rep["hour"], rep["minute"])))
+                obs["timer_set_to_reported_value"] = obs.get("timer_set_to_reported_value", 0) + 1
         run(inst, calls, f"timers{case['state']}")
     elif k == "zones":
         inst = K.make_installation(gen, rnd, modes=31, fans=255, sensors=case["sensors"],
